@@ -577,7 +577,14 @@ def stream_files(ctx, F, n_files, n_sweep, families, use_gpg):
             path = os.path.join(F.dir, "orig.json")
             md.dump(path)
             data = open(path, "rb").read()
-            fj = json.loads(data)
+            try:
+                fj = json.loads(data)
+            except ValueError as e:
+                # the file in-toto itself wrote is not JSON: it can never be loaded and verified again
+                oracle_viol.append(("honest file as dumped (compact_json=%s) is not JSON: %s" % (compact, str(e)[:100]), data,
+                                    [copy.deepcopy(s_.pub) for s_ in signers],
+                                    {"expect": ["ok"] * len(signers), "signed_bytes": latin(signed_bytes), "asdict": orig_asdict}))
+                continue
             # verification keys: the signers, every other pool key (e), a look-alike per signer
             others = [k for k in POOL["ed25519"] if k.keyid not in [s.keyid for s in signers]][:3]
             for f2 in ("rsa", "ecdsa"):
@@ -944,6 +951,16 @@ def gen_cli_spec(ctx, ck, families, use_gpg):
             ks = [rng.choice(names) for _ in range(nk)]
             if fam != "ed25519" or nk > 1 and rng.random() < 0.7:
                 ks = list(dict.fromkeys(ks))                  # randomised schemes: one signature per key and run
+            if fam == "gpg":
+                # ... per key that really signs: the master key signs through its signing subkey, so the two names
+                # would give two time-stamped signatures of ONE key over one message in a single run
+                eff, seen, ks2 = {hk.GPG_MASTER: hk.GPG_SIGN_SUB}, set(), []
+                for n_ in ks:
+                    e_ = eff.get(ck.keys[n_].get("gpgid"), ck.keys[n_].get("gpgid"))
+                    if e_ not in seen:
+                        seen.add(e_)
+                        ks2.append(n_)
+                ks = ks2
             events.append({"ev": "sign", "append": rng.random() < (0.15 if is_link else 0.55), "keys": ks})
         elif r < 0.85 or not events:
             nk = rng.choice([1, 1, 2, 3])
@@ -1072,6 +1089,54 @@ def locale_roundtrip(ctx):
         return ["locale round-trip helper failed: rc %s %s" % (p.returncode, (p.stderr or p.stdout)[-300:])]
 
 
+def runlib_written_files(ctx):
+    """metadata signed and written by the recording entry points themselves (in_toto_run, in_toto_record_start +
+    in_toto_record_stop with every optional override, in_toto_mock is unsigned): every written file must load and
+    verify with the public half of the key that signed it.  -> (cases, list of problems)"""
+    import shutil
+    import in_toto.runlib as rl
+    from in_toto.models.metadata import Metadata
+    from harness import fstree
+    problems, n = [], 0
+    for fam, idx in (("ed25519", 0), ("rsa", 0), ("ecdsa", 0)):
+        key = hk.sslib_key(fam, idx)
+        for dsse in (False, True):
+            for how in ("run", "run_streams_env", "stop_plain", "stop_command", "stop_byproducts", "stop_environment", "stop_all"):
+                wd = os.path.join(ctx.work, "c09rl")
+                shutil.rmtree(wd, ignore_errors=True)
+                os.makedirs(wd)
+                open(os.path.join(wd, "a.txt"), "w").write("a\n")
+                n += 1
+                try:
+                    from harness.chain import quiet
+                    with fstree.in_dir(wd), quiet():
+                        if how.startswith("run"):
+                            rl.in_toto_run("st", ["."], ["."], ["sh", "-c", "echo out; echo err >&2"], signer=key.signer, use_dsse=dsse,
+                                           record_streams=how != "run", record_environment=how != "run")
+                        else:
+                            rl.in_toto_record_start("st", ["."], signer=key.signer, use_dsse=dsse)
+                            open("b.txt", "w").write("b\n")
+                            kw = {}
+                            if how in ("stop_command", "stop_all"):
+                                kw["command"] = ["make", "all"]
+                            if how in ("stop_byproducts", "stop_all"):
+                                kw["byproducts"] = {"return-value": 0, "stdout": "\u00e9", "stderr": ""}
+                            if how in ("stop_environment", "stop_all"):
+                                kw["environment"] = {"workdir": "/w", "note": "\u00e9"}
+                            rl.in_toto_record_stop("st", ["."], signer=key.signer, **kw)
+                        fn = "st.%s.link" % key.keyid[:8]
+                        md = Metadata.load(fn)
+                        md.verify_signature(key.pub)
+                        pl = md.get_payload()
+                        for f, v in (kw.items() if not how.startswith("run") else ()):
+                            if getattr(pl, f) != v:
+                                problems.append("%s/%s/%s: the written link does not carry the %s passed to record stop" % (how, fam, "dsse" if dsse else "metablock", f))
+                except Exception as e:  # noqa
+                    problems.append("%s/%s/%s: the link written by the recording entry point does not load and verify with its "
+                                    "signer's public key: %s" % (how, fam, "dsse" if dsse else "metablock", type(e).__name__))
+    return n, problems
+
+
 def run(ctx):
     thorough = ctx.thorough()
     t_start = time.time()
@@ -1088,6 +1153,11 @@ def run(ctx):
         ctx.violation("disk round trip under a non-UTF-8 locale (LC_ALL=C, UTF-8 mode off): " + pr,
                       {"kind": "locale_roundtrip", "env": {"LC_ALL": "C", "PYTHONUTF8": "0", "PYTHONCOERCECLOCALE": "0"},
                        "what": "Link with non-ASCII name/materials/byproducts, sign, dump, Metadata.load, verify_signature"})
+
+    rl_cases, rl_problems = runlib_written_files(ctx)
+    for pr in rl_problems[:3]:
+        violations += 1
+        ctx.violation("metadata written by the recording entry points: " + pr, {"kind": "runlib_written_files", "what": pr})
 
     # (a) (b)
     vals, impl_c = stream_canon(ctx, 12000 if thorough else 2500)
@@ -1243,6 +1313,15 @@ def replay(ctx, obj):
     model = core.Model()
     init_pool(ctx)
     bad = False
+    if kind in ("runlib_written_files", "locale_roundtrip"):
+        problems = runlib_written_files(ctx)[1] if kind == "runlib_written_files" else locale_roundtrip(ctx)
+        for pr in problems[:5]:
+            print("  -> " + pr)
+        if problems:
+            print("VIOLATION property=C09 replay=%s" % obj.get("rerun", "").split()[-1])
+            return 1
+        print("agree")
+        return 0
     if kind in ("canon", "signable_bytes", "pae"):
         v = json.loads(r["value_json"])
         if kind == "pae":
